@@ -46,13 +46,13 @@ package vamana
 //@ spec nodeSync(e []uint64, n []vectorstore.VectorStorePoint) bool = len(e) == len(n) && forall(k, 0, len(e), e[k] == pid(n[k]))
 
 //@ func (*graphNode).ClearNeighbours
-//@   property C10
+//@   property C10 C08
 //@   modifies g.edges, g.neighbours, g.isDirty, g.isNeighLoaded.v
 //@   ensures len(g.edges) == 0 && len(g.neighbours) == 0 && g.isDirty && g.isNeighLoaded.v != 0
 //@   ensures g.Id == old(g.Id)
 
 //@ func (*graphNode).AddNeighbour
-//@   property C10
+//@   property C10 C08
 //@   safety -overflow
 //@   requires nodeSync(g.edges, g.neighbours)
 //@   modifies g.edges, g.neighbours, g.isDirty, contents(g.edges), contents(g.neighbours)
@@ -62,14 +62,14 @@ package vamana
 //@   ensures g.Id == old(g.Id)
 
 //@ func (*graphNode).AddNeighbourIfNotExists
-//@   property C10
+//@   property C10 C08
 //@   safety -overflow
 //@   requires nodeSync(g.edges, g.neighbours)
 //@   modifies g.edges, g.neighbours, g.isDirty, contents(g.edges), contents(g.neighbours)
 //@   ensures nodeSync(g.edges, g.neighbours) && result == len(g.edges)
 //@   ensures exists(k, 0, len(g.edges), g.edges[k] == pid(neighbour))
 //@   ensures old(exists(k, 0, len(g.edges), g.edges[k] == pid(neighbour))) ==> len(g.edges) == old(len(g.edges))
-//@   ensures !old(exists(k, 0, len(g.edges), g.edges[k] == pid(neighbour))) ==> len(g.edges) == old(len(g.edges)) + 1
+//@   ensures !old(exists(k, 0, len(g.edges), g.edges[k] == pid(neighbour))) ==> len(g.edges) == old(len(g.edges)) + 1 && g.isDirty
 //@   ensures forall(k, 0, old(len(g.edges)), g.edges[k] == old(g.edges[k]))
 //@   loop 1 invariant rangeindex >= -1 && rangeindex < len(g.edges) && forall(k, 0, rangeindex+1, g.edges[k] != pid(neighbour))
 
